@@ -380,23 +380,31 @@ func (ex *Explorer) feasible2(i *interpreter, c *Term) (canT, canF bool) {
 }
 
 // modelValue returns a value of t consistent with the path condition.
-func (ex *Explorer) modelValue(i *interpreter, t *Term) (uint64, bool) {
+func (ex *Explorer) modelValue(i *interpreter, t *Term) (uint64, Result) {
 	if ex.modelOK(i) {
 		if r, ok := i.b.Eval(t, ex.model); ok {
-			return r.val, true
+			return r.val, Sat
 		}
 	}
-	s := ex.solverFor(i.pc, t)
 	// bind t to an auxiliary variable to read its value
 	ex.auxN++
 	aux := i.b.Var(fmt.Sprintf("aux_mv%d", ex.auxN), t.sort)
 	vars := append(ex.inputVars(), aux)
-	res, m := s.Check(i.pc, i.b.Eq(aux, t), ex.run.Cfg.FeasTimeoutMs*5, vars)
-	if res != Sat || m == nil {
-		return 0, false
+	res := Unknown
+	// "unknown" (a time-out under load, a solver error followed by a restart) is retried
+	// once with a longer limit; it is never taken for "no value exists"
+	for try, limit := 0, ex.run.Cfg.FeasTimeoutMs*5; try < 2 && res == Unknown; try, limit = try+1, limit*4 {
+		s := ex.solverFor(i.pc, t)
+		r, m := s.Check(i.pc, i.b.Eq(aux, t), limit, vars)
+		if r == Sat && m != nil {
+			ex.model, ex.haveModel, ex.modelLen = m, true, len(i.pc)
+			return m[aux.name], Sat
+		}
+		if r == Unsat {
+			res = Unsat
+		}
 	}
-	ex.model, ex.haveModel, ex.modelLen = m, true, len(i.pc)
-	return m[aux.name], true
+	return 0, res
 }
 
 func (ex *Explorer) freshChoice(i *interpreter, name string, n int) int {
@@ -419,7 +427,9 @@ func (ex *Explorer) newInput(i *interpreter, name, kind string, s Sort) *Term {
 		}
 		return i.b.BV(s, v)
 	}
-	vn := fmt.Sprintf("in%d_%s", idx, sanitize(name))
+	// the sort is part of the name: jobs of one run share solver processes, and two inputs
+	// with the same index and name but different kinds must not collide there
+	vn := fmt.Sprintf("in%d_%s_%s", idx, sanitize(name), sanitize(kind))
 	t := i.b.Var(vn, s)
 	ex.inputs = append(ex.inputs, inputRec{name: name, kind: kind, v: t})
 	return t
